@@ -120,7 +120,7 @@ def main():
         histbfs.check_keys.clear()
         # every configuration gets its share of what is left (unused budget is passed on)
         left_share = sum(sh_ for n_, _, _, sh_ in configs if n_ not in per_config)
-        deadline = time.time() + max(10.0, (total - (time.time() - t_start)) * share / left_share)
+        deadline = time.time() + max(30.0, (total - (time.time() - t_start)) * share / left_share)
         t1 = time.time()
 
         def crash_sig(op, crash, stderr, name=name):
@@ -137,7 +137,7 @@ def main():
             sigs.add(sig)
             c.violation(sig, "[%s] %s :: %s" % (name, readable, detail),
                         {"config": name, "history": hist})
-        if res.depth_completed < 2 and not res.violations:   # observations made so far are still reported
+        if res.depth_completed < 2 and not res.violations and not c.violations and not res.budget_hit:   # out of budget = exit 0 with exhaustive:false (HOWTO rule 1)   # observations made so far are still reported
             c.harness_error("configuration %s: BFS did not complete depth 2 (completed %d)" % (name, res.depth_completed))
         events = set()
         for f in glob.glob(os.path.join(wd, "events.*")):
